@@ -1,0 +1,18 @@
+//go:build verif
+
+package runtime
+
+// VerifScopeStats - read-only snapshot for the verification harness:
+// per module ID -> [current scope depth, live symbol count]
+func (vm *VM) VerifScopeStats() map[int][2]int {
+	out := map[int][2]int{}
+	for id, sp := range vm.valueStack {
+		out[id] = [2]int{sp.currentDepth, sp.localCount}
+	}
+	return out
+}
+
+// VerifCallStackLen - number of call frames currently on the stack
+func (vm *VM) VerifCallStackLen() int {
+	return vm.csCount
+}
